@@ -1016,4 +1016,42 @@ theorem mirror_roundtrip_embedded (pre ms post : List StepMap) (hms : ms ≠ [])
     simp only [Option.map_some, Option.some.injEq] at hpal
     simp only [Option.map_some, Option.bind_some, hpal, ofMaps_mapResult]
 
+/-- **forward, then back, in one mapping** (`append_mapping_inverted` of a mapping onto itself, no
+    mirrors): positions that get no deletion flag on the way out come back -/
+theorem appendMappingInverted_roundtrip (ms : List StepMap) (hne : ms ≠ [])
+    (hwf : ∀ m ∈ ms, WF 0 m.ranges) (p a : Int) (h : delFold ms a p 0 = 0) :
+    ((Mapping.ofMaps ms).appendMappingInverted (Mapping.ofMaps ms)).map p a = some p := by
+  rw [(appendMappingInverted_map_spec_plain (Mapping.ofMaps ms) (Mapping.ofMaps ms) rfl rfl hne p a).2]
+  show some (mapFold ((ms ++ ms.reverse.map StepMap.invert).drop 0) a p) = some p
+  rw [List.drop_zero, mapFold_append, mapFold_reverse_invert, roundtrip_fold a a ms hwf p h]
+
+/-! ### non-vacuity of the composition laws with mirrors -/
+
+/-- `append_mapping` of an undo block (`B, B⁻¹` mirrored) onto a receiver `[A]`: all hypotheses of
+    `appendMapping_map_spec` hold; position 4 survives `A` (→ 5), is deleted by `B` and recovered
+    through the carried-over pair `[2, 1]`; without the pair it would end up elsewhere (→ 7) -/
+example :
+    let A : StepMap := ⟨[(1, 0, 1)], false⟩
+    let B : StepMap := ⟨[(3, 4, 0)], false⟩
+    let m := Mapping.ofMaps [A]
+    let n := palindrome [B]
+    MirrorFunctional m ∧ MirrorFunctional n ∧ n.maps ≠ [] ∧ m.from_ ≤ m.maps.length ∧
+    (m.appendMapping n).mirror = [2, 1] ∧
+    (m.appendMapping n).mapResult 4 1 = some { pos := 5, delInfo := 0 } ∧
+    (Mapping.ofMaps (m.appendMapping n).maps).map 4 1 = some 7 := by decide
+
+/-- `append_mapping_inverted` of a rebasing-shaped mapping (`A⁻¹, C, A` with `A⁻¹ ↔ A`): the result
+    carries the reflected pair and maps like the receiver followed by `other.invert()` -/
+example :
+    let A : StepMap := ⟨[(2, 0, 3)], false⟩
+    let C : StepMap := ⟨[(0, 0, 4)], false⟩
+    let n : Mapping := (((({} : Mapping).appendMap A.invert).appendMap C).appendMap A (some 0))
+    let m := Mapping.ofMaps [⟨[(0, 0, 1)], false⟩]
+    MirrorFunctional m ∧ MirrorFunctional n ∧ n.mirror = [2, 0] ∧
+    (m.appendMappingInverted n).mirror = [3, 1] ∧ n.invert.mirror = [2, 0] ∧
+    (m.appendMappingInverted n).mapResult 2 1 = some { pos := 3, delInfo := 0 } ∧
+    (n.invert.mapResult 3 1) = some { pos := 3, delInfo := 0 } ∧
+    (Mapping.ofMaps (m.appendMappingInverted n).maps).mapResult 2 1 ≠ some { pos := 3, delInfo := 0 } := by
+  decide
+
 end PM.C08
